@@ -52,7 +52,13 @@ pub fn loadasm(rest: &str) -> String {
     };
     match rspirv::dr::load_bytes(&bytes) {
         Ok(m) => {
-            let ws: Vec<String> = m.assemble().iter().map(|w| w.to_string()).collect();
+            let a = m.assemble();
+            let mut b = vec![7u32];
+            m.assemble_into(&mut b);
+            if b[0] != 7 || b[1..] != a[..] {
+                return "entry-points-differ".to_string();
+            }
+            let ws: Vec<String> = a.iter().map(|w| w.to_string()).collect();
             format!("ok {}", ws.join(","))
         }
         Err(e) => format!("err {}", hex(format!("{}", e).as_bytes())),
